@@ -2,6 +2,8 @@
 
 package state
 
+import "time"
+
 // Verification hooks (build tag "verif"): read-only views and direct state setters used by
 // the /verif harness. Nothing here is compiled into normal builds.
 
@@ -38,4 +40,11 @@ func (s *EncryptionSession) VerifKeys() (in, out []byte) {
 	s.lock.Lock()
 	defer s.lock.Unlock()
 	return append([]byte(nil), s.inKey...), append([]byte(nil), s.outKey...)
+}
+
+// VerifReset forgets the newest accepted sequence time (as for a fresh session).
+func (sh *TimeSequenceHandler) VerifReset() {
+	sh.lock.Lock()
+	defer sh.lock.Unlock()
+	sh.latest = time.Time{}
 }
